@@ -58,6 +58,7 @@ type driver struct {
 	spawnN    int
 
 	crossCompared int
+	secondRuntime string
 }
 
 func listMain() {
@@ -145,6 +146,7 @@ func driverMain(args []string) int {
 	workers := fs.Int("workers", 0, "parallel workers (default: cores)")
 	verifDir := fs.String("verif", "/verif", "verif directory")
 	workerExe := fs.String("worker-exe", "", "binary used for workers (default: this binary)")
+	workerExe2 := fs.String("worker-exe2", "", "binary used for the cross-process stage (e.g. the worker built with a second Go release)")
 	limit := fs.Int("limit", 0, "override the number of cases (debugging only)")
 	fs.Parse(args)
 
@@ -222,7 +224,12 @@ func driverMain(args []string) int {
 	// cross-process stage (C07): a fraction of the cases is executed again in other fresh processes; digests must agree
 	if p.CrossProcess > 0 && !d.tooManyDeaths() {
 		n2 := int(float64(total) * p.CrossProcess)
-		d2 := &driver{p: p, tier: *tier, seed: seed, exe: exe, workerExe: *workerExe, verifDir: *verifDir, runDir: d.runDir, budget: d.budget}
+		exe2 := *workerExe
+		if *workerExe2 != "" {
+			exe2 = *workerExe2
+			d.secondRuntime = filepath.Base(*workerExe2)
+		}
+		d2 := &driver{p: p, tier: *tier, seed: seed, exe: exe, workerExe: exe2, verifDir: *verifDir, runDir: d.runDir, budget: d.budget}
 		d2.spawnN = 500000
 		q2 := make(chan span, n2/(chunk/2+1)+2)
 		// different chunk boundaries than in the first pass, so that a case meets different predecessors in its process
@@ -780,25 +787,26 @@ func (d *driver) finish(total int, slow []int, wall time.Duration) int {
 		"seed":        d.seed,
 		"level":       "exploration",
 		"coverage": map[string]any{
-			"evaluations":         evals,
-			"cases":               executed,
-			"cases_held":          heldN,
-			"distinct_cases":      len(allHashes),
-			"distinct_nontrivial": len(ntHashes),
-			"rule":                p.Rule,
-			"samples":             samples,
-			"families":            families,
-			"cells_hit":           len(cells),
-			"cells":               cells,
-			"skipped_by_reason":   skippedBy,
-			"observed":            stats,
-			"slow_cases":          slow,
-			"known_findings_seen": knownHit,
-			"race_reports":        raceBlocks,
-			"violation_sigs":      sigs,
-			"inconclusive":        inconclusive,
-			"workers_spawned":     d.spawnN,
-			"cross_process_pairs": d.crossCompared,
+			"evaluations":                 evals,
+			"cases":                       executed,
+			"cases_held":                  heldN,
+			"distinct_cases":              len(allHashes),
+			"distinct_nontrivial":         len(ntHashes),
+			"rule":                        p.Rule,
+			"samples":                     samples,
+			"families":                    families,
+			"cells_hit":                   len(cells),
+			"cells":                       cells,
+			"skipped_by_reason":           skippedBy,
+			"observed":                    stats,
+			"slow_cases":                  slow,
+			"known_findings_seen":         knownHit,
+			"race_reports":                raceBlocks,
+			"violation_sigs":              sigs,
+			"inconclusive":                inconclusive,
+			"workers_spawned":             d.spawnN,
+			"cross_process_pairs":         d.crossCompared,
+			"cross_process_second_binary": d.secondRuntime,
 		},
 		"assumptions": append([]string{
 			"the worker is rebuilt from /repo's working tree with build tag verif; cases are a deterministic function of (VERIF_SEED, property, tier, index)",
